@@ -27,9 +27,11 @@ def split_args(s):
     while i < n:
         c = s[i]
         if c == '"':
-            j = i + 1
-            while j < n and s[j] != '"':
-                j += 2 if s[j] == "\\" else 1
+            j = s.find('"', i + 1)
+            while j > 0 and s[j - 1] == "\\" and not s[:j].endswith("\\\\"):
+                j = s.find('"', j + 1)           # escaped quote (does not occur with -xx)
+            if j < 0:
+                raise ParseError("unterminated string")
             cur.append(s[i:j + 1])
             i = j + 1
             continue
@@ -67,6 +69,10 @@ def cstr(tok):
     if tok[end + 1:].strip() == "...":
         raise ParseError("truncated string (raise -s)")
     body = tok[1:end]
+    try:
+        return bytes.fromhex(body.replace("\\x", ""))     # -xx: only \xNN sequences
+    except ValueError:
+        pass
     out = bytearray()
     i, n = 0, len(body)
     while i < n:
@@ -93,7 +99,7 @@ def cstr(tok):
 
 def annot(tok):
     """'3</a/b>' -> (3, '/a/b') ; 'AT_FDCWD</cwd>' -> (None, '/cwd') ; '5' -> (5, None)"""
-    m = re.match(r"^(AT_FDCWD|-?\d+)(?:<(.*)>)?$", tok, re.S)
+    m = re.match(r"^(AT_FDCWD|-?\d+)(?:<(.*)>(?:\(deleted\))?)?$", tok, re.S)
     if not m:
         raise ParseError("bad fd token: " + tok[:80])
     fd = None if m.group(1) == "AT_FDCWD" else int(m.group(1))
@@ -103,10 +109,27 @@ def annot(tok):
     return fd, p
 
 
-def parse_log(text):
-    """-> (events, killed, pids): events = list of dict(pid, name, args, ret, err, injected, unfinished)"""
+NAME_RE = re.compile(r"^(\d+)\s+([a-z_0-9]+)\(")
+
+
+def hex_needle(D):
+    return "".join("\\x%02x" % b for b in D.encode("utf8"))
+
+
+def parse_log(text, needles=None):
+    """-> (events, killed, pids): events = list of dict(pid, name, args, ret, err, injected, unfinished).
+    Lines that contain none of `needles` (the work directory, plain and \\x-escaped: with -y every syscall on a
+    tracked path or descriptor mentions it) are only counted: dict(pid, name, skip=True)."""
     events, killed, pids = [], None, []
     for raw in text.split("\n"):
+        if needles is not None and not any(nd in raw for nd in needles):
+            m = NAME_RE.match(raw)
+            if m:
+                pid = int(m.group(1))
+                if pid not in pids:
+                    pids.append(pid)
+                events.append({"pid": pid, "name": m.group(2), "skip": True, "unfinished": False, "injected": False})
+                continue
         if not raw.strip():
             continue
         m = LINE_RE.match(raw)
@@ -193,11 +216,12 @@ class Abstraction:
             name = ev["name"]
             if ev["pid"] != main_pid:
                 # another process: the model is single-process.  Only harmless if it touches nothing tracked.
-                txt = " ".join(ev["args"]) if ev["args"] else ev.get("raw", "")
-                if self.D in txt:
+                if not ev.get("skip"):
                     self.X("second process touches the work directory: %s" % name)
                 continue
             counts[name] = counts.get(name, 0) + 1
+            if ev.get("skip"):
+                continue
             n_before = len(self.ops)
             if ev["unfinished"] and name == "?interleaved":
                 self.X("interleaved syscall lines")
@@ -225,7 +249,7 @@ class Abstraction:
             if not self.tracked(p):
                 return
             mode, fl = parse_flags(flags)
-            if "O_DIRECTORY" in fl or "O_PATH" in fl:
+            if "O_DIRECTORY" in fl or "O_PATH" in fl or p in self.dirs or p == self.D:
                 ev["_relevant"] = False
                 return
             if "O_TMPFILE" in fl or (mode == "r" and "O_TRUNC" in fl):
@@ -273,6 +297,8 @@ class Abstraction:
                 return
             if fl != "0":
                 return self.X("renameat2 flags " + fl)
+            if self.tracked(pa) != self.tracked(pb):
+                return self.X("rename across the border of the work directory")
             if self.is_dir_of_tracked(pa) or self.is_dir_of_tracked(pb) or pa in self.dirs or pb in self.dirs:
                 return self.X("rename of a directory %s -> %s" % (pa, pb))
             self.ops.append("R %d %d %s" % (self.pid_(pa), self.pid_(pb), ok))
